@@ -7,6 +7,7 @@ import (
 	goerrors "github.com/ajitpratap0/GoSQLX/pkg/errors"
 	"os"
 	"path/filepath"
+	"runtime"
 	"runtime/debug"
 	"sort"
 	"strings"
@@ -297,7 +298,7 @@ func Check() *common.Check {
 		Rule: "(1) all strings of <=3 (quick) / <=4 (thorough) fragments over lexgen's 37-fragment lexical alphabet and over a 14-fragment hostile alphabet (invalid UTF-8, NUL, letters whose upper case has another byte length, quote openers, injection snippets), and all character strings up to length 5..9 (+1 thorough) over six delimiter families (dollar quoting, quotes and backslash, comment marks, bracket / back-tick identifiers, mixed), bare and inside a SELECT; " +
 			"(2) all lexeme sequences of length <=3 (quick) / <=4 (thorough, reduced alphabet) over a 60-lexeme keyword/operator/literal alphabet; (3) all parser-token sequences of length <=2 over every token type the library names, and <=3 over 50 core types, " +
 			"each with and without a trailing EOF token (length-3 slices without EOF: thorough only) and with empty literals, x position mappings shorter / equal / longer than the token slice; (4) every token prefix of every distinct sqlgen statement, every byte prefix (step 1 quick up to 600 bytes) of every corpus file, " +
-			"every single-token deletion / duplication / replacement by 12 hostile tokens of a spread of statements; (5) a length ladder (every lexeme length 0..160/600 in 12 error templates and as token literals), a depth ladder (13 nesting / chaining constructs at every depth 1..110) and 12 saturation histories of 2200 distinct unexpected-token texts each (with / without a keyword suggestion, mixed in both orders) through the process-wide suggestion cache. Each input goes through every public entry point (about 60 for text, incl. every dialect and strict mode; on success also serialisers, extractors, scanner, traversal). " +
+			"every single-token deletion / duplication / replacement by 12 hostile tokens of a spread of statements; (5) a length ladder (every lexeme length 0..160/600 in 12 error templates and as token literals), a depth ladder (13 nesting / chaining constructs at every depth 1..110) and 12 saturation histories of 2200 distinct unexpected-token texts each (with / without a keyword suggestion, mixed in both orders) through the process-wide suggestion cache; (6) after-failure histories: every rejected single-token deletion of every representative expression statement (strict, validating, recovering and formatting calls) followed in the same process - one P, collector off, pools emptied first - by every representative expression statement. Each input goes through every public entry point (about 60 for text, incl. every dialect and strict mode; on success also serialisers, extractors, scanner, traversal). " +
 			"Oracle: the call returns; no panic reaches the caller; the worker process does not die and does not go silent. distinct = distinct input; non-trivial = the input is accepted by the default parser, so the tree consumers run too",
 		Assume: []string{"a hang is 'no progress of a worker for 120 s' (cases take microseconds)", "inputs near the 10 MiB limit are exercised by C02 / C20 families, not here"},
 		Enumerate: func(e *common.Enum) {
@@ -502,6 +503,49 @@ func Check() *common.Check {
 						text := sqlgen.Render(rep, sqlgen.LNatural)
 						e.Do("mut|"+text, func(c *common.Ctx) { c.Input(text); onText(c, text, false) })
 					}
+				}
+			}
+			// after a failure: what a failing call leaves in the process (pooled nodes handed back on an error path, caches)
+			// is what the next call builds on.  Every rejected single-token deletion of every representative expression
+			// statement, followed - in the same process, one P, collector off, pools emptied first - by every
+			// representative expression statement through all entry points and all tree consumers.
+			var reps []sqlgen.S
+			seenRep := map[string]bool{}
+			sqlgen.HoleCases(func(hole, rep string, st sqlgen.S) {
+				if hole != "select.item" {
+					return
+				}
+				if sql := st.SQL(); !seenRep[sql] {
+					seenRep[sql] = true
+					reps = append(reps, st)
+				}
+			})
+			for _, r := range reps {
+				for k := range r.Toks {
+					del := append(append([]sqlgen.Tok{}, r.Toks[:k]...), r.Toks[k+1:]...)
+					bad := sqlgen.Render(del, sqlgen.LNatural)
+					key := "after-failure|" + bad
+					e.Do(key, func(c *common.Ctx) {
+						c.Input(key)
+						if _, err := gosqlx.Parse(bad); err == nil {
+							c.Outcome("after-failure:deletion-accepted")
+							return
+						}
+						runtime.GOMAXPROCS(1)
+						defer debug.SetGCPercent(debug.SetGCPercent(-1))
+						runtime.GC()
+						runtime.GC()
+						for _, f := range reps {
+							_, _ = gosqlx.Parse(bad)
+							_ = gosqlx.Validate(bad)
+							_, _ = gosqlx.ParseWithRecovery(bad + " ; " + bad)
+							_, _ = gosqlx.Format(bad, gosqlx.DefaultFormatOptions())
+							onText(c, f.SQL(), false)
+							c.Count("after_failure_pairs", 1)
+						}
+						c.Outcome("after-failure:returned")
+						c.NonTrivial()
+					})
 				}
 			}
 			// corpus files: whole file through everything, byte prefixes through the core
